@@ -280,10 +280,24 @@ func newC11Driver(client string) drv.Real {
 	return drv.NewV2()
 }
 
+type c11Batch struct {
+	op  model.Op
+	res model.Result
+}
+
+func c11BatchSize(op model.Op) int {
+	n := 0
+	for _, tb := range op.Batch {
+		n += len(tb.Reqs)
+	}
+	return n
+}
+
 type c11Info struct {
-	overlaps     int
-	sharedKeys   bool
-	inconclusive string
+	partialBatches int
+	overlaps       int
+	sharedKeys     bool
+	inconclusive   string
 }
 
 // runC11 executes the program Runs times.
@@ -318,6 +332,7 @@ func runC11(c c11Case, info *c11Info) *failure {
 			}
 		}
 		var panics []string
+		var batches []c11Batch
 		start := make(chan struct{})
 		var wg sync.WaitGroup
 		for ti, ops := range c.Threads {
@@ -329,9 +344,17 @@ func runC11(c c11Case, info *c11Info) *failure {
 					call := atomic.AddInt64(&clock, 1)
 					r := d.Apply(op)
 					ret := atomic.AddInt64(&clock, 1)
-					if r.Err == model.ErrRuntimePanic {
+					// (a read through an index the table does not have faults in the unchanged
+					// library, sequentially too; no listed property asks for more, and what
+					// matters here is that the client stays usable afterwards)
+					if r.Err == model.ErrRuntimePanic && op.Index != "nosuchindex" {
 						mu.Lock()
 						panics = append(panics, fmt.Sprintf("%s: %s", op.Kind, r.ErrText))
+						mu.Unlock()
+					}
+					if c.Flavour == "batch-failure" && op.Kind == "BatchWrite" {
+						mu.Lock()
+						batches = append(batches, c11Batch{op, r})
 						mu.Unlock()
 					}
 					if in, ok := c11Decode(op); ok && c.recordsHistory() {
@@ -416,6 +439,37 @@ func runC11(c c11Case, info *c11Info) *failure {
 		}
 		// post-state: no corruption
 		d.Apply(model.Op{Kind: "SetFailure", Failure: "none"})
+		// a batch that raced with the failure switch: every put (all keys are
+		// unique and nothing deletes them) was applied or handed back, not both, not neither
+		for _, b := range batches {
+			if b.res.Err != "" {
+				continue
+			}
+			back := map[string]bool{}
+			for _, tb := range b.res.Unprocessed {
+				for _, w := range tb.Reqs {
+					if w.Put != nil {
+						back[tb.Table+"/"+w.Put["pk"].S] = true
+					}
+				}
+			}
+			for _, tb := range b.op.Batch {
+				for _, w := range tb.Reqs {
+					k := w.Put["pk"].S
+					g := d.Apply(model.Op{Kind: "Get", Table: tb.Table, Key: c11Key(k)})
+					stored := g.Err == "" && len(g.Item) > 0
+					switch {
+					case stored && back[tb.Table+"/"+k]:
+						return newFail("batch request applied and reported unprocessed", "run %d: put of %s/%s was stored although BatchWriteItem handed it back as unprocessed (%d of %d handed back)", run, tb.Table, k, len(back), len(tb.Reqs))
+					case !stored && !back[tb.Table+"/"+k]:
+						return newFail("batch request dropped", "run %d: put of %s/%s is neither stored nor among the unprocessed requests", run, tb.Table, k)
+					}
+				}
+			}
+			if len(back) > 0 && len(back) < c11BatchSize(b.op) {
+				info.partialBatches++
+			}
+		}
 		for _, tn := range d.TableNames() {
 			wb := d.Whitebox(tn)
 			if wb == nil {
@@ -486,7 +540,7 @@ func init() {
 	}
 }
 
-const ruleC11 = "rapid generates concurrent programs (sequential setup + 2-8 goroutines x 2-10 operations released from a barrier), each executed repeatedly on a fresh SDK v1 or v2 client in a binary built with the Go race detector (GORACE=halt_on_error), two thirds of them with a generated pause plan (the n-th passage through a verif yield point inside the table operations sleeps 1.5 ms while the client lock is held, which puts the mutex into hand-off mode so that a lock dropped and re-taken inside an operation is interleaved): 'data' programs over a tiny key space of counter items (PutItem, conditional PutItem attribute_not_exists, UpdateItem ADD 1, GetItem, DeleteItem ALL_OLD, conditional DeleteItem) and 'catalogue' programs (CreateTable / DeleteTable / DescribeTable on two names, N racing CreateTable on one fresh name) whose invoke/return-stamped histories, completed by final reads, are checked for linearizability with porcupine against the sequential counter-item / table-catalogue specification (this subsumes 'N concurrent ADD-1 yield N' and 'exactly one of N racing conditional puts succeeds', both also generated as dedicated programs); 'failure' programs (writers and readers on the counter items beside goroutines that switch the emulated failure on and off and read DescribeTable's item count inside the window), checked against the specification extended by the switch: once EmulateFailure has returned, no write may land until it is switched off; 'native-race' programs (CreateTable racing with ActivateNativeInterpreter / SetInterpreter; afterwards all tables are in one interpreter mode); 'mixed' programs over every client method (CreateTable / DeleteTable / UpdateTable / DescribeTable, batch calls over one and two tables with and without ConsistentRead, TransactWriteItems, Query, Scan, ClearTable, failure toggling, GetNativeInterpreter / SetInterpreter / ActivateNativeInterpreter, data operations). Oracles: race detector report (the program being executed is recorded before it starts), runtime panic or fatal error, deadlock watchdog (a goroutine parked on a lock, condition or channel below a minidyn frame after 30 s), linearizability, SortedKeys/Data consistency and index-vs-table agreement afterwards. Non-trivial = program in which >= 2 goroutines touch the same key or the table catalogue; distinct = hash of the program."
+const ruleC11 = "rapid generates concurrent programs (sequential setup + 2-8 goroutines x 2-10 operations released from a barrier), each executed repeatedly on a fresh SDK v1 or v2 client in a binary built with the Go race detector (GORACE=halt_on_error), two thirds of them with a generated pause plan (the n-th passage through a verif yield point inside the table operations sleeps 1.5 ms while the client lock is held, which puts the mutex into hand-off mode so that a lock dropped and re-taken inside an operation is interleaved): 'data' programs over a tiny key space of counter items (PutItem, conditional PutItem attribute_not_exists, UpdateItem ADD 1, GetItem, DeleteItem ALL_OLD, conditional DeleteItem) and 'catalogue' programs (CreateTable / DeleteTable / DescribeTable on two names, N racing CreateTable on one fresh name) whose invoke/return-stamped histories, completed by final reads, are checked for linearizability with porcupine against the sequential counter-item / table-catalogue specification (this subsumes 'N concurrent ADD-1 yield N' and 'exactly one of N racing conditional puts succeeds', both also generated as dedicated programs); 'failure' programs (writers and readers on the counter items beside goroutines that switch the emulated failure on and off and read DescribeTable's item count inside the window), checked against the specification extended by the switch: once EmulateFailure has returned, no write may land until it is switched off; 'native-race' programs (CreateTable racing with ActivateNativeInterpreter / SetInterpreter; afterwards all tables are in one interpreter mode); 'batch-failure' programs (BatchWriteItem calls of 2-25 puts with unique keys beside goroutines that switch the emulated internal-server failure on and off, always with a pause plan; afterwards every put is stored or was handed back as unprocessed, never both, never neither); 'shared-input' programs (several goroutines pass the very same prepared GetItemInput / QueryInput / ScanInput object to the client, beside writers); 'mixed' programs over every client method (including UpdateTable calls that carry attribute definitions only, and reads whose filter does not parse or whose index does not exist - the call fails or panics, is recovered, and the client must stay usable; CreateTable / DeleteTable / UpdateTable / DescribeTable, batch calls over one and two tables with and without ConsistentRead, TransactWriteItems, Query, Scan, ClearTable, failure toggling, GetNativeInterpreter / SetInterpreter / ActivateNativeInterpreter, data operations). Oracles: race detector report (the program being executed is recorded before it starts), runtime panic or fatal error, deadlock watchdog (a goroutine parked on a lock, condition or channel below a minidyn frame after 30 s), linearizability, SortedKeys/Data consistency and index-vs-table agreement afterwards. Non-trivial = program in which >= 2 goroutines touch the same key or the table catalogue; distinct = hash of the program."
 
 // c11Recorded: a failing program has been written to the replay file of this process.
 var c11Recorded bool
@@ -501,7 +555,7 @@ func TestC11(t *testing.T) {
 	}
 	rapid.Check(t, func(rt *rapid.T) {
 		c := c11Case{Client: rapid.SampledFrom([]string{"v1", "v2"}).Draw(rt, "client"), Runs: runs}
-		c.Flavour = rapid.SampledFrom([]string{"data", "data", "mixed", "mixed", "counter", "racing-puts", "racing-deletes", "catalogue", "racing-creates", "failure", "failure", "native-race"}).Draw(rt, "flavour")
+		c.Flavour = rapid.SampledFrom([]string{"data", "data", "mixed", "mixed", "counter", "racing-puts", "racing-deletes", "catalogue", "racing-creates", "failure", "failure", "native-race", "batch-failure", "shared-input"}).Draw(rt, "flavour")
 		mainSchema := sTable("tbl", false)
 		mainSchema.Attrs["g1"] = "S"
 		mainSchema.Indexes = []model.IndexSchema{{Name: "gidx", Hash: "g1", Global: true, NoThroughput: true}}
@@ -570,6 +624,55 @@ func TestC11(t *testing.T) {
 						{Kind: "NativeGet"},
 						{Kind: "DescribeTable", Table: "other"},
 					}).Draw(rt, "nativeRaceOp"))
+				}
+				c.Threads = append(c.Threads, ops)
+			}
+			shared = true
+		case "batch-failure":
+			// multi-request batch writes beside goroutines that switch the emulated
+			// internal-server failure on and off: each request applied xor handed back
+			for i := 0; i < nThreads; i++ {
+				var ops []model.Op
+				if i%2 == 0 {
+					for j, n := 0, rapid.IntRange(2, 8).Draw(rt, "toggles"); j < n; j++ {
+						ops = append(ops, model.Op{Kind: "SetFailure", Failure: []string{"internal_server", "none"}[j%2]})
+					}
+				} else {
+					for j, n := 0, rapid.IntRange(1, 3).Draw(rt, "batches"); j < n; j++ {
+						b := model.TableBatch{Table: "tbl"}
+						for k, m := 0, rapid.IntRange(2, 25).Draw(rt, "batchSize"); k < m; k++ {
+							b.Reqs = append(b.Reqs, model.WriteReq{Put: model.Item{"pk": model.Str(fmt.Sprintf("b%d-%d-%d", i, j, k)), "c": model.Num("1")}})
+						}
+						ops = append(ops, model.Op{Kind: "BatchWrite", Batch: []model.TableBatch{b}})
+					}
+				}
+				c.Threads = append(c.Threads, ops)
+			}
+			shared = true
+		case "shared-input":
+			// several goroutines hand the very same prepared request object to the
+			// client (a read never writes to it outside the client lock), beside writers
+			c.Flavour = "mixed"
+			for _, k := range keys {
+				c.Setup = append(c.Setup, model.Op{Kind: "Put", Table: "tbl", Item: model.Item{"pk": model.Str(k), "c": model.Num("1"), "g1": model.Str("g")}})
+			}
+			reads := []model.Op{
+				{Kind: "Query", Table: "tbl", KeyCond: "pk = :h", Values: map[string]model.AV{":h": model.Str("k1")}, Shared: "q1"},
+				{Kind: "Query", Table: "tbl", Index: "gidx", KeyCond: "#g = :g", Names: map[string]string{"#g": "g1"}, Values: map[string]model.AV{":g": model.Str("g")}, Limit: 2, Shared: "q2"},
+				{Kind: "Query", Table: "tbl", KeyCond: "pk = :h", Filter: "c >= :one", Values: map[string]model.AV{":h": model.Str("k2"), ":one": model.Num("1")}, Backward: true, Shared: "q3"},
+				{Kind: "Scan", Table: "tbl", Shared: "s1"},
+				{Kind: "Scan", Table: "tbl", Index: "gidx", Filter: "c >= :one", Values: map[string]model.AV{":one": model.Num("1")}, Limit: 2, Shared: "s2"},
+				{Kind: "Get", Table: "tbl", Key: c11Key("k1"), Shared: "g1"},
+				{Kind: "Get", Table: "tbl", Key: c11Key("k2"), Projection: "#c", Names: map[string]string{"#c": "c"}, Shared: "g2"},
+			}
+			for i := 0; i < nThreads; i++ {
+				var ops []model.Op
+				for j, n := 0, rapid.IntRange(2, 6).Draw(rt, "opsPerThread"); j < n; j++ {
+					if rapid.IntRange(0, 3).Draw(rt, "writer") == 2 {
+						ops = append(ops, c11DataOp(c11In{Kind: rapid.SampledFrom([]string{"ADD", "PUT", "DEL"}).Draw(rt, "dataOp"), Key: rapid.SampledFrom(keys).Draw(rt, "key")}))
+						continue
+					}
+					ops = append(ops, rapid.SampledFrom(reads).Draw(rt, "sharedRead"))
 				}
 				c.Threads = append(c.Threads, ops)
 			}
@@ -650,6 +753,12 @@ func TestC11(t *testing.T) {
 						{Kind: "SetFailure", Failure: "internal_server"},
 						{Kind: "SetFailure", Failure: "none"},
 						{Kind: "DescribeTable", Table: "other"},
+						{Kind: "DeclareAttrs", Table: "tbl", IndexAttrs: map[string]string{"g3": "S"}},
+						{Kind: "DeclareAttrs", Table: "tbl", IndexAttrs: map[string]string{"g2": "S", "g4": "N"}},
+						{Kind: "Scan", Table: "tbl", Filter: "c = = :one", Values: map[string]model.AV{":one": model.Num("1")}}, // does not parse: the call fails or panics (recovered), the client stays usable
+						{Kind: "Query", Table: "tbl", KeyCond: "pk = :h", Filter: "c = = :one", Values: map[string]model.AV{":h": model.Str(k), ":one": model.Num("1")}},
+						{Kind: "Scan", Table: "tbl", Index: "nosuchindex"},
+						{Kind: "Query", Table: "tbl", Index: "nosuchindex", KeyCond: "pk = :h", Values: map[string]model.AV{":h": model.Str(k)}},
 						{Kind: "NativeGet"},
 						{Kind: "NativeGet"},
 						{Kind: "NativeSet"},
@@ -675,7 +784,7 @@ func TestC11(t *testing.T) {
 			}
 			shared = true
 		}
-		if rapid.IntRange(0, 2).Draw(rt, "withPauses") > 0 {
+		if rapid.IntRange(0, 2).Draw(rt, "withPauses") > 0 || c.Flavour == "batch-failure" {
 			c.Pauses = rapid.SliceOfNDistinct(rapid.IntRange(1, 40), 1, 6, rapid.ID[int]).Draw(rt, "pauses")
 		}
 		// always record the program before running it: a race report or a
@@ -692,6 +801,7 @@ func TestC11(t *testing.T) {
 		st.Class("client-" + c.Client)
 		st.ClassN("overlapping-operation-pairs", int64(info.overlaps))
 		st.ClassN("program-executions", int64(c.Runs))
+		st.ClassN("batches-split-by-a-failure-switch", int64(info.partialBatches))
 		if info.inconclusive != "" {
 			st.Class("inconclusive: " + info.inconclusive)
 		}
